@@ -1,23 +1,38 @@
 import EinoV.Basic.JsonUtil
 import EinoV.Model.C16
+import EinoV.Model.C16Keys
 import EinoV.Expected.C16
 
 namespace EinoV.Oracle.C16
 open Lean EinoV EinoV.C16
 
-/-- {"k":"comp","key":s,"ty":n} | {"k":"pass","key":s} | {"k":"graph","key":s,"ch":[…]} -/
-partial def parseNode (j : Json) : JE Node := do
+def optKey (j : Json) (k : String) : Option Key :=
+  match J.strD j k "" with
+  | "" => none
+  | s => some s
+
+/-- {"k":"comp","key":s,"ty":n} | {"k":"pass","key":s} | {"k":"graph","key":s,"ch":[…]}, each with
+    optional "inKey":s / "outKey":s (the node was added with WithInputKey / WithOutputKey) -/
+partial def parseNode (j : Json) : JE WNode := do
   let key ← J.str j "key"
+  let w : Wrap := { inKey := optKey j "inKey", outKey := optKey j "outKey" }
   match (← J.str j "k") with
-  | "comp" => pure (.comp key (← J.nat j "ty"))
-  | "pass" => pure (.pass key)
+  | "comp" => pure (.comp key (← J.nat j "ty") w)
+  | "pass" => pure (.pass key w)
   | "graph" => do
     let ch ← (← J.arr j "ch").mapM parseNode
-    pure (.graph key (ch.foldr Nodes.cons .nil))
+    pure (.graph key (ch.foldr WNodes.cons .nil) w)
   | k => throw s!"bad node kind {k}"
 
-def parseNodes (js : List Json) : JE Nodes := do
-  pure ((← js.mapM parseNode).foldr Nodes.cons .nil)
+def parseNodes (js : List Json) : JE WNodes := do
+  pure ((← js.mapM parseNode).foldr WNodes.cons .nil)
+
+def parseParadigm : String → JE Paradigm
+  | "" | "invoke" => pure .invoke
+  | "stream" => pure .stream
+  | "collect" => pure .collect
+  | "transform" => pure .transform
+  | p => throw s!"bad paradigm {p}"
 
 def parseOpt (j : Json) : JE Opt := do
   let paths ← (← J.arr j "paths").mapM (fun p => do (← J.asArr p).mapM J.asStr)
@@ -43,8 +58,9 @@ def optJson (o : Opt) : Json :=
   Json.mkObj [("ty", (o.ty : Json)), ("vals", J.mkNats o.vals), ("handlers", J.mkNats o.handlers),
               ("paths", J.mkArr (o.paths.map J.mkStrs))]
 
-def parseCall (j : Json) : JE Call := do
-  pure { g := (← parseNodes (← J.arr j "g")), ixs := (← J.natList j "ixs") }
+def parseCall (j : Json) : JE CallW := do
+  pure { g := (← parseNodes (← J.arr j "g")), ixs := (← J.natList j "ixs"),
+         par := (← parseParadigm (J.strD j "paradigm" "")) }
 
 /-- {"op":"base","ty":n,"vals":[…],"handlers":[…]} | {"op":"designate","src":i,"paths":[[…]…]} -/
 def parseBuildOp (j : Json) : JE (BuildOp × Option Opt) := do
@@ -67,14 +83,14 @@ def builtStore (ops : List (BuildOp × Option Opt)) : List Opt :=
   let paths := builtPaths Expected.C16.facts.designateCopies goGrow (ops.map (·.1))
   (attrs.zip paths).map (fun (a, p) => { a with paths := p })
 
-/-- case: {"store":[opt…] | "build":[op…], "calls":[{"g":[node…],"ixs":[i…]}…]}  →
+/-- case: {"store":[opt…] | "build":[op…], "calls":[{"g":[node…],"ixs":[i…],"paradigm":s}…]}  →
     {"results":[{"err":…,"entries":[…]}…], "store":[opt…]} -/
 def handle (c : Json) : JE Json := do
   let store ← match c.getObjVal? "build" with
     | .ok (.arr ops) => do pure (builtStore (← ops.toList.mapM parseBuildOp))
     | _ => (← J.arr c "store").mapM parseOpt
   let calls ← (← J.arr c "calls").mapM parseCall
-  let (rs, st) := runCalls Expected.C16.facts store calls
+  let (rs, st) := runCallsW Expected.C16.facts Expected.C16.keyFacts store calls
   pure <| Json.mkObj [("results", J.mkArr (rs.map resultJson)), ("store", J.mkArr (st.map optJson))]
 
 end EinoV.Oracle.C16
